@@ -71,7 +71,7 @@ def gen_faulty(rng):
     labels = []
     root = gen_lines(rng, rng.randrange(3, 10), labels, "r")
     inc = gen_lines(rng, rng.randrange(2, 7), labels, "i")
-    kinds = ["unknown_instr", "undefined_symbol", "out_of_range", "duplicate_label", "malformed"]
+    kinds = ["unknown_instr", "undefined_symbol", "out_of_range", "duplicate_label", "malformed", "missing_operand"]
     kind = rng.choice(kinds)
     in_inc = rng.random() < 0.4
     target = inc if in_inc else root
@@ -94,9 +94,15 @@ def gen_faulty(rng):
         # duplicate a label that is declared before the insertion point in program order
         name = rng.choice(cands)
         line = name + ":" + comment
+    elif kind == "missing_operand":
+        # an operand missing at the end of the line; the next line starts with `#`, which cannot continue an
+        # expression (a next line that *can* be read as an operand is the recorded finding F23)
+        line = rng.choice(["    #d8 1 +", "    #res", "    #addr", "    #align", "    #d8 (1 +", "    #d8 1 *"]) + comment
     else:
         line = rng.choice(["    #d8 ,", "    #d8 (1", "    #bogus 1", "    #res 1 2", "    ld 1 +", "    #d8 1 2", "    #align )", "    #addr 1,"]) + comment
     target.insert(idx, (line, "FAULT"))
+    if kind == "missing_operand":
+        target.insert(idx + 1, ("    #d8 0x12", "data"))
     inc_pos = rng.randrange(len(root) + 1)
     root.insert(inc_pos, ('#include "inc.asm"', "include"))
     root_text = RULES + "\n".join(t for t, _ in root) + "\n"
